@@ -33,6 +33,7 @@ def cli_lines(rng, lines, k):
         if op in ("tu", "regular"):
             mask = int(tk[1])
             if (mask >> 5) & 15 or ((mask >> 13) & 7) > 4: continue          # stop flags / invalid strategy: no such options
+            if not (mask >> 9) & 1 or not (mask >> 11) & 1: continue         # --no-series-parallel / --no-direct-graphic abort (known findings D7, D7b)
             if op == "tu" and not (mask >> 2) & 1: continue                  # binary mode is not available on the command line
             if (mask >> 19) & 1: l = l.replace(" %d " % mask, " %d " % (mask & ~(1 << 19)), 1)
             if op == "regular" and (mask >> 18) & 1: l = l.replace(" %d " % (mask & ~(1 << 19)), " %d " % (mask & ~(3 << 18)), 1)
